@@ -16,7 +16,7 @@ import types
 
 from symx import core, env, symnp, units
 from symx.core import z3
-from symx.framework import new_result, VCSink, fill_explorer
+from symx.framework import new_result, VCSink, fill_explorer, add_witness
 from checks import groupa, c02
 
 PROPERTY = "C14"
@@ -213,6 +213,8 @@ def run_shape(shape, tier, focus="C14"):
             elif info["obs"].get("not_samples"):
                 continue
             _spec(sink, path, S, shape, info, focus, logprobs)
+            if ex.n_paths % 3 == 1:
+                add_witness(res, path, _desc_factory(S, path, shape, info), site=shape["mode"])
         finally:
             core.Ctx.cur = None
     res["twin_ok"] = twin
